@@ -296,6 +296,8 @@ def run(ctx):
     boundaries.check(ctx, 'C17.RB', 'C17')
     boundaries.check_writes(ctx, 'C17.RW', 'C17')
     r10_remember_after_reset(ctx)
+    from . import C06
+    C06.r3_notify(ctx, 'C17.R11')  # a peer reset / error reaches every parked handle of the stream (send, recv and push waiters)
     boundaries.check_codes(ctx, 'C17.RE', 'C17')
     boundaries.check_writes(ctx, 'C17.RW', 'C17')
     boundaries.check_calls(ctx, 'C17.RC', 'C17')
